@@ -450,7 +450,7 @@ int cif_analyze_string(const UChar *str, int allow_unquoted, int allow_triple_qu
             case UCHAR_NL:
                 has_nl_semi = (has_nl_semi || (str[length + 1] == UCHAR_SEMI));
                 TRACK_TRAILING_WS;
-                if (char_counts[UCHAR_NL] + char_counts[UCHAR_CR] == 1) {
+                if (char_counts[UCHAR_NL] + char_counts[UCHAR_CR] - crlf_count == 1) {
                     first_line = this_line;
                     max_line = this_line;
                 } else if (this_line > max_line) {
